@@ -13,7 +13,7 @@ from sympy import Integer
 
 from ..facts import Broken, pp, loc, walk
 from ..effects import callee
-from .. import sym, spec, blocks
+from .. import sym, spec, blocks, history
 from ..sym import Interp, Unsupported, Vec, SmallMat, BlockVec, Container
 from ..model import spline_model
 from ..blocks import BlockRun
@@ -157,6 +157,11 @@ def run(chk):
 
 
 def check_class(chk, F, short, cls):
+    """The solver is interpreted once per outcome of every history-dependent size guard it contains (sa/history.py)."""
+    history.for_each_outcome(chk, lambda c_: check_class_once(c_, F, short, cls))
+
+
+def check_class_once(chk, F, short, cls):
     if True:
         if True:
             M = spline_model(F, cls)
